@@ -133,6 +133,32 @@ VH_AREA(fsim) {
             c = gen_qec_circuit(rng, qo, &st, &nq);
             gen.nq = nq;
             st.hit("cases.qec_like");
+        } else if (k % 16 == 1 || k % 16 == 13) {
+            // loops that the reference sample tree folds (C02: the result must not depend on loop folding)
+            c = fold_loop_circuit(rng, st);
+            gen.nq = (int)c.count_qubits();
+            st.hit("cases.foldable_loops");
+        } else if (k % 16 == 9) {
+            // observables accumulated by several OBSERVABLE_INCLUDE instructions whose reference parities are 1
+            int nqa = 2 + (int)rng.below(2);
+            std::vector<uint32_t> all;
+            for (int q = 0; q < nqa; q++) all.push_back((uint32_t)q);
+            c.safe_append_u("R", all);
+            for (int q = 0; q < nqa; q++) if (rng.chance(0.6)) c.safe_append_u("X", {(uint32_t)q});
+            Circuit body;
+            if (rng.chance(0.3)) body.safe_append_u("X", {(uint32_t)rng.below(nqa)});
+            body.safe_append_u("M", all);
+            size_t nobs = 1 + rng.below(2);
+            for (size_t i = 0; i < 1 + rng.below(3); i++)
+                body.safe_append_u("OBSERVABLE_INCLUDE", {TARGET_RECORD_BIT | (uint32_t)(1 + rng.below(nqa))}, {(double)rng.below(nobs)});
+            if (rng.chance(0.5)) body.safe_append_u("DETECTOR", {TARGET_RECORD_BIT | 1u});
+            uint64_t reps = 1 + rng.below(4);
+            if (rng.chance(0.6)) c.append_repeat_block(reps, body, "");
+            else for (uint64_t r = 0; r < reps; r++) c += body;
+            c.safe_append_u("M", {0});
+            c.safe_append_u("OBSERVABLE_INCLUDE", {TARGET_RECORD_BIT | 1u}, {0.0});
+            gen.nq = nqa;
+            st.hit("cases.accumulated_observables");
         } else c = gen.make();
         auto relab = make_relabel(rng, gen.nq, k % 3 == 1);
         Circuit big = a.replay.empty() ? relabel(c, relab) : c;
@@ -157,6 +183,15 @@ VH_AREA(fsim) {
             if (stats.num_sweep_bits == 0 || true) {
                 std::mt19937_64 r2(rng.next());
                 auto ref = TableauSimulator<MAX_BITWORD_WIDTH>::reference_sample_circuit(big);
+                if (rng.chance(0.6) || k % 16 == 1 || k % 16 == 13) {
+                    // what `stim sample` does unless --skip_loop_folding is given
+                    ReferenceSampleTree tree = ReferenceSampleTree::from_circuit_reference_sample(big.aliased_noiseless_circuit());
+                    simd_bits<MAX_BITWORD_WIDTH> folded(0);
+                    tree.decompress_into(folded);
+                    // (any valid noiseless record may serve as reference; the samples built on it are judged by the oracle below)
+                    ref = folded;
+                    st.hit("public_sampling.folded_reference");
+                }
                 size_t n2 = rng.pick(std::vector<size_t>{3, 65, 257});
                 auto tab = sample_batch_measurements<MAX_BITWORD_WIDTH>(big, ref, n2, r2, true);
                 std::string txt;
